@@ -658,9 +658,10 @@ theorem gatherEvent_adding (c c' : Ctx) (phase : String) (time : Int) (rows : Li
     simp only [bind, Except.bind, pure, Except.pure] at h
     cases h
     refine ⟨mapped, rfl, ?_⟩
-    have hsub : ((c.obs.filter (fun o => o.phase = phase)).map (·.name)).Nodup :=
-      List.Nodup.sublist (List.Sublist.map _ List.filter_sublist) hnd
-    have hmem : o ∈ c.obs.filter (fun o => o.phase = phase) := List.mem_filter.mpr ⟨ho, by simp [hph]⟩
+    have hsub : ((traversal (c.obs.filter (fun o => o.phase = phase))).map (·.name)).Nodup :=
+      traversal_nodup_names _ (List.Nodup.sublist (List.Sublist.map _ List.filter_sublist) hnd)
+    have hmem : o ∈ traversal (c.obs.filter (fun o => o.phase = phase)) :=
+      (mem_traversal _ _).mpr (List.mem_filter.mpr ⟨ho, by simp [hph]⟩)
     exact foldl_stepObs_adding time rows mapped inputs _ hsub c o hmem hk i hi acc hacc
 
 /-- the sum over all strata grows by exactly the aggregate over the eligible simulants of the event (when
@@ -737,13 +738,14 @@ theorem gatherEvent_entry (c c' : Ctx) (ev : String × Int × List RawRow × Lis
       rw [hs] at h
       simp only [bind, Except.bind, pure, Except.pure] at h
       cases h
-      have hfr := foldl_stepObs_obs time rows mapped inputs (c.obs.filter (fun o => o.phase = ph)) c
+      have hfr := foldl_stepObs_obs time rows mapped inputs (traversal (c.obs.filter (fun o => o.phase = ph))) c
       refine ⟨hfr.1, hfr.2, ?_⟩
       have hmapped : mappedOf c.strats rows = mapped := by simp [mappedOf, hs]
-      have hsub : ((c.obs.filter (fun o => o.phase = ph)).map (·.name)).Nodup :=
-        List.Nodup.sublist (List.Sublist.map _ List.filter_sublist) hnd
+      have hsub : ((traversal (c.obs.filter (fun o => o.phase = ph))).map (·.name)).Nodup :=
+        traversal_nodup_names _ (List.Nodup.sublist (List.Sublist.map _ List.filter_sublist) hnd)
       by_cases hph : ph = o.phase
-      · have hmem : o ∈ c.obs.filter (fun o => o.phase = ph) := List.mem_filter.mpr ⟨ho, by simp [hph]⟩
+      · have hmem : o ∈ traversal (c.obs.filter (fun o => o.phase = ph)) :=
+          (mem_traversal _ _).mpr (List.mem_filter.mpr ⟨ho, by simp [hph]⟩)
         cases hi : inputs.find? (fun i => i.name = o.name) with
         | some i =>
           have : eventFor c.strats o (ph, time, rows, inputs) =
@@ -772,13 +774,14 @@ theorem gatherEvent_entry (c c' : Ctx) (ev : String × Int × List RawRow × Lis
                   unfold stepObs; rw [hi]; exact h0
                 · exact ((stepObs_frame time rows mapped inputs c0 o0 o.name hn).1).trans h0
               · exact fun o' ho' => hall o' (List.mem_cons_of_mem _ ho')
-          exact key _ c hacc (fun o' ho' hn => eq_of_name_eq hnd (List.mem_filter.mp ho').1 ho hn)
+          exact key _ c hacc (fun o' ho' hn =>
+            eq_of_name_eq hnd (List.mem_filter.mp ((mem_traversal _ _).mp ho')).1 ho hn)
       · have : eventFor c.strats o (ph, time, rows, inputs) = (false, []) := by
           unfold eventFor; simp [hph]
         rw [this, to_observe_false_no_increment]
-        have hothers : ∀ o' ∈ c.obs.filter (fun o => o.phase = ph), o'.name ≠ o.name := by
+        have hothers : ∀ o' ∈ traversal (c.obs.filter (fun o => o.phase = ph)), o'.name ≠ o.name := by
           intro o' ho' hn
-          have h1 := List.mem_filter.mp ho'
+          have h1 := List.mem_filter.mp ((mem_traversal _ _).mp ho')
           have heq := eq_of_name_eq hnd h1.1 ho hn
           have h2 : o'.phase = ph := by simpa using h1.2
           rw [heq] at h2
@@ -842,9 +845,297 @@ theorem simulation_result (c0 c c' : Ctx) (events : List (String × Int × List 
     congr 1
     exact result_is_sum_of_increments _ _
 
-/-- `register_observation` keeps observation names unique (a duplicate name is refused) -/
-theorem registerObservation_names_nodup (c c' : Ctx) (name phase : String) (kind : Kind) (add exc : List String)
-    (cb : Bool) (hnd : (c.obs.map (·.name)).Nodup) (h : registerObservation c name phase kind add exc cb = .ok c') :
+/-! ### failing gatherings (lesson 16): a user callable raises, the caller catches the exception and carries on -/
+
+/-- an event of a history in which the caller catches: phase, time, rows, the callables' outputs (with the callable
+that raises when it is called, per observation) and the failures of the event as a whole -/
+abbrev EventC := String × Int × List RawRow × List ObsInput × EventFault
+
+/-- the observations (registered as `all`) that the gathering of the event reaches before anything raises -/
+def reachedList (all : List Obs) (phase : String) (rows : List RawRow) (mapped : List (List (String × Option String)))
+    (inputs : List ObsInput) : List Obs :=
+  (traversal (all.filter (fun o => o.phase = phase))).takeWhile (fun o => !raisesAt rows mapped inputs o)
+
+theorem reachedObs_eq (c : Ctx) (phase : String) (rows : List RawRow) (mapped : List (List (String × Option String)))
+    (inputs : List ObsInput) : reachedObs c phase rows mapped inputs = reachedList c.obs phase rows mapped inputs := rfl
+
+/-- one event of such a history as seen by ONE adding observation: the event as `eventFor` shows it when the
+observation was actually gathered (nothing raised before it was reached), nothing at all otherwise -/
+def eventForC (ss : List Strat) (all : List Obs) (o : Obs) (ev : EventC) : Bool × List Row :=
+  if ev.2.2.2.2.prepare = true ∨ ev.2.2.2.2.mapper = true then (false, [])
+  else if o ∈ reachedList all ev.1 ev.2.2.1 (mappedOf ss ev.2.2.1) ev.2.2.2.1 then
+    eventFor ss o (ev.1, ev.2.1, ev.2.2.1, ev.2.2.2.1)
+  else (false, [])
+
+theorem takeWhile_all {α : Type} (p : α → Bool) (l : List α) (h : ∀ a ∈ l, p a = true) : l.takeWhile p = l := by
+  induction l with
+  | nil => rfl
+  | cons a as ih =>
+    rw [List.takeWhile_cons, h a List.mem_cons_self]
+    simp only [if_true]
+    rw [ih (fun b hb => h b (List.mem_cons_of_mem _ hb))]
+
+/-- an observation without input at the event is skipped; the others do not touch its entry -/
+theorem foldl_stepObs_no_input (time : Int) (rows : List RawRow) (mapped : List (List (String × Option String)))
+    (inputs : List ObsInput) (o : Obs) (hi : inputs.find? (fun i => i.name = o.name) = none) (acc : Table)
+    (os : List Obs) (c0 : Ctx) (h0 : getAssoc o.name c0.adding = some acc)
+    (hall : ∀ o' ∈ os, o'.name = o.name → o' = o) :
+    getAssoc o.name (os.foldl (stepObs time rows mapped inputs) c0).adding = some acc := by
+  induction os generalizing c0 with
+  | nil => exact h0
+  | cons o0 os ih =>
+    rw [List.foldl_cons]
+    apply ih
+    · by_cases hn : o0.name = o.name
+      · have := hall o0 List.mem_cons_self hn
+        subst this
+        unfold stepObs; rw [hi]; exact h0
+      · exact ((stepObs_frame time rows mapped inputs c0 o0 o.name hn).1).trans h0
+    · exact fun o' ho' => hall o' (List.mem_cons_of_mem _ ho')
+
+/-- A gathering that raises before any observation is reached – a required pipeline in `_prepare_population`, a
+mapper, an unknown category – records NOTHING: the context is what it was, and the exception is reported. -/
+theorem failed_before_observations_records_nothing (c : Ctx) (phase : String) (time : Int) (rows : List RawRow)
+    (inputs : List ObsInput) (ef : EventFault)
+    (h : ef.prepare = true ∨ ((rows.filter (·.inEvent)).isEmpty = false ∧
+          (ef.mapper = true ∨ ∃ e, stratifyAll c.strats rows = .error e))) :
+    (gatherCaught c phase time rows inputs ef).1 = c ∧ (gatherCaught c phase time rows inputs ef).2 ≠ none := by
+  unfold gatherCaught
+  by_cases hp : ef.prepare = true
+  · simp [hp]
+  · rcases h with h | ⟨hne, h⟩
+    · exact absurd h hp
+    · simp only [hp, hne, Bool.false_eq_true, if_false]
+      by_cases hm : ef.mapper = true
+      · simp [hm]
+      · rcases h with h | ⟨e, he⟩
+        · exact absurd h hm
+        · simp [hm, he]
+
+/-- without failing callables `gatherCaught` is `gatherEvent`: the fault-free theorems above are theorems about it -/
+theorem gatherCaught_no_fault (c : Ctx) (phase : String) (time : Int) (rows : List RawRow) (inputs : List ObsInput)
+    (hnf : ∀ i ∈ inputs, i.fault = .none) :
+    gatherCaught c phase time rows inputs {} =
+      match gatherEvent c phase time rows inputs with
+      | .ok c' => (c', none)
+      | .error e => (c, some e) := by
+  unfold gatherCaught gatherEvent
+  by_cases hempty : (rows.filter (·.inEvent)).isEmpty = true
+  · simp [hempty]
+  · simp only [hempty, Bool.false_eq_true, if_false]
+    cases hs : stratifyAll c.strats rows with
+    | error e => simp [bind, Except.bind]
+    | ok mapped =>
+      have hall : reachedObs c phase rows mapped inputs = traversal (c.obs.filter (fun o => o.phase = phase)) := by
+        unfold reachedObs
+        apply takeWhile_all
+        intro o _
+        unfold raisesAt
+        cases hf : inputs.find? (fun i => i.name = o.name) with
+        | none => rfl
+        | some i => simp [hnf i (List.mem_of_find?_eq_some hf)]
+      simp [bind, Except.bind, pure, Except.pure, hall]
+
+/-- What ONE adding observation sees of an event whose exceptions are caught: if the gathering reached it, exactly
+the row-layer `gather` of that event (its full increment, once); if something raised before it was reached – or
+the event is of another phase, or nobody is in it – nothing at all.  Registrations are untouched either way. -/
+theorem gatherCaught_entry (c : Ctx) (ev : EventC) (hnd : (c.obs.map (·.name)).Nodup) (o : Obs) (ho : o ∈ c.obs)
+    (hk : o.kind = .adding) (acc : Table) (hacc : getAssoc o.name c.adding = some acc) :
+    (gatherCaught c ev.1 ev.2.1 ev.2.2.1 ev.2.2.2.1 ev.2.2.2.2).1.obs = c.obs ∧
+    (gatherCaught c ev.1 ev.2.1 ev.2.2.1 ev.2.2.2.1 ev.2.2.2.2).1.strats = c.strats ∧
+    getAssoc o.name (gatherCaught c ev.1 ev.2.1 ev.2.2.1 ev.2.2.2.1 ev.2.2.2.2).1.adding =
+      some (gather (levelsOf c.strats o.strats) (eventForC c.strats c.obs o ev).1 acc (eventForC c.strats c.obs o ev).2) := by
+  obtain ⟨ph, time, rows, inputs, ef⟩ := ev
+  simp only
+  unfold gatherCaught
+  by_cases hp : ef.prepare = true
+  · have : eventForC c.strats c.obs o (ph, time, rows, inputs, ef) = (false, []) := by
+      unfold eventForC; simp [hp]
+    simp only [hp, if_true, this, to_observe_false_no_increment]
+    exact ⟨trivial, trivial, hacc⟩
+  simp only [hp, Bool.false_eq_true, if_false]
+  by_cases hempty : (rows.filter (·.inEvent)).isEmpty = true
+  · have : eventForC c.strats c.obs o (ph, time, rows, inputs, ef) = (false, []) := by
+      unfold eventForC eventFor
+      simp only [hempty]
+      split
+      · rfl
+      · split <;> simp
+    simp only [hempty, if_true, this, to_observe_false_no_increment]
+    exact ⟨trivial, trivial, hacc⟩
+  have hne : (rows.filter (·.inEvent)).isEmpty = false := by simpa using hempty
+  simp only [hempty, Bool.false_eq_true, if_false]
+  by_cases hm : ef.mapper = true
+  · have : eventForC c.strats c.obs o (ph, time, rows, inputs, ef) = (false, []) := by
+      unfold eventForC; simp [hm]
+    simp only [hm, if_true, this, to_observe_false_no_increment]
+    exact ⟨trivial, trivial, hacc⟩
+  simp only [hm, Bool.false_eq_true, if_false]
+  have hnof : ¬ (ef.prepare = true ∨ ef.mapper = true) := by
+    rintro (h | h)
+    · exact hp h
+    · exact hm h
+  cases hs : stratifyAll c.strats rows with
+  | error e =>
+    refine ⟨rfl, rfl, ?_⟩
+    have hmapped : mappedOf c.strats rows = [] := by simp [mappedOf, hs]
+    have : gather (levelsOf c.strats o.strats) (eventForC c.strats c.obs o (ph, time, rows, inputs, ef)).1 acc
+        (eventForC c.strats c.obs o (ph, time, rows, inputs, ef)).2 = acc := by
+      unfold eventForC
+      rw [if_neg hnof]
+      split
+      · unfold eventFor
+        split
+        · simp only [hmapped]
+          split
+          · apply no_eligible_no_increment
+            simp [mkRows]
+          · exact to_observe_false_no_increment _ _ _
+        · exact to_observe_false_no_increment _ _ _
+      · exact to_observe_false_no_increment _ _ _
+    rw [this]; exact hacc
+  | ok mapped =>
+    simp only
+    have hmapped : mappedOf c.strats rows = mapped := by simp [mappedOf, hs]
+    have hfr := foldl_stepObs_obs time rows mapped inputs (reachedObs c ph rows mapped inputs) c
+    refine ⟨hfr.1, hfr.2, ?_⟩
+    have hsubl : (reachedObs c ph rows mapped inputs).Sublist (traversal (c.obs.filter (fun o => o.phase = ph))) :=
+      List.takeWhile_sublist _
+    have hsub : ((reachedObs c ph rows mapped inputs).map (·.name)).Nodup :=
+      List.Nodup.sublist (List.Sublist.map _ hsubl)
+        (traversal_nodup_names _ (List.Nodup.sublist (List.Sublist.map _ List.filter_sublist) hnd))
+    have hin : ∀ o' ∈ reachedObs c ph rows mapped inputs, o' ∈ c.obs ∧ o'.phase = ph := by
+      intro o' ho'
+      have := List.mem_filter.mp ((mem_traversal _ _).mp (hsubl.subset ho'))
+      exact ⟨this.1, by simpa using this.2⟩
+    by_cases hr : o ∈ reachedObs c ph rows mapped inputs
+    · have hph : o.phase = ph := (hin o hr).2
+      cases hi : inputs.find? (fun i => i.name = o.name) with
+      | some i =>
+        have : eventForC c.strats c.obs o (ph, time, rows, inputs, ef) =
+            (i.toObserve, mkRows o.strats rows mapped i.passes i.vals) := by
+          unfold eventForC
+          rw [if_neg hnof]
+          simp only [hmapped]
+          rw [if_pos (by rw [← reachedObs_eq]; exact hr)]
+          unfold eventFor
+          simp [hph, hne, hi, hmapped]
+        rw [this]
+        exact foldl_stepObs_adding time rows mapped inputs _ hsub c o hr hk i hi acc hacc
+      | none =>
+        have : eventForC c.strats c.obs o (ph, time, rows, inputs, ef) = (false, []) := by
+          unfold eventForC
+          rw [if_neg hnof]
+          simp only [hmapped]
+          rw [if_pos (by rw [← reachedObs_eq]; exact hr)]
+          unfold eventFor
+          simp [hph, hne, hi]
+        rw [this, to_observe_false_no_increment]
+        exact foldl_stepObs_no_input time rows mapped inputs o hi acc _ c hacc
+          (fun o' ho' hn => eq_of_name_eq hnd (hin o' ho').1 ho hn)
+    · have : eventForC c.strats c.obs o (ph, time, rows, inputs, ef) = (false, []) := by
+        unfold eventForC
+        rw [if_neg hnof]
+        simp only [hmapped]
+        rw [if_neg (by rw [← reachedObs_eq]; exact hr)]
+      rw [this, to_observe_false_no_increment]
+      have hothers : ∀ o' ∈ reachedObs c ph rows mapped inputs, o'.name ≠ o.name := by
+        intro o' ho' hn
+        have := eq_of_name_eq hnd (hin o' ho').1 ho hn
+        exact hr (this ▸ ho')
+      exact ((foldl_stepObs_frame time rows mapped inputs _ c o.name hothers).1).trans hacc
+
+/-- a whole history in which every exception is caught, seen from one adding observation: the row-layer fold of
+`gather` over the events as that observation saw them (`eventForC`: not at all when it was not reached) -/
+theorem runCaught_adding (c : Ctx) (events : List EventC) (hnd : (c.obs.map (·.name)).Nodup) (o : Obs)
+    (ho : o ∈ c.obs) (hk : o.kind = .adding) (acc : Table) (hacc : getAssoc o.name c.adding = some acc) :
+    (runCaught c events).obs = c.obs ∧ (runCaught c events).strats = c.strats ∧
+    getAssoc o.name (runCaught c events).adding =
+      some ((events.map (eventForC c.strats c.obs o)).foldl
+        (fun acc e => gather (levelsOf c.strats o.strats) e.1 acc e.2) acc) := by
+  induction events generalizing c acc with
+  | nil => exact ⟨rfl, rfl, by simpa [runCaught] using hacc⟩
+  | cons ev es ih =>
+    obtain ⟨hobs, hstr, hent⟩ := gatherCaught_entry c ev hnd o ho hk acc hacc
+    have := ih (gatherCaught c ev.1 ev.2.1 ev.2.2.1 ev.2.2.2.1 ev.2.2.2.2).1 (hobs ▸ hnd) (hobs ▸ ho) _ hent
+    rw [hobs, hstr] at this
+    simpa [runCaught] using this
+
+/-- THE PROPERTY FOR A HISTORY WITH FAILED GATHERINGS.  After `on_post_setup` and any sequence of events – some of
+whose gatherings raise, the caller catching the exception, reading results, running the step again – the reported
+result of an adding observation has one row per combination of its non-excluded categories, and each value is the
+sum, over the events in which the observation WAS ACTUALLY GATHERED, of that event's increment: every such event
+contributes exactly once (also a retried one, also one emitted again for the same clock time), an event whose
+gathering raised before the observation was reached contributes nothing, and nothing else is remembered. -/
+theorem caught_simulation_result (c0 c : Ctx) (events : List EventC) (hsetup : postSetup c0 = .ok c)
+    (hnd : (c0.obs.map (·.name)).Nodup) (o : Obs) (ho : o ∈ c0.obs) (hk : o.kind = .adding) :
+    getAssoc o.name (runCaught c events).adding =
+      some ((product (levelsOf c0.strats o.strats)).map fun k =>
+        (k, ((events.map (eventForC c0.strats c0.obs o)).map (eventTerm k)).sum)) := by
+  unfold postSetup at hsetup
+  split at hsetup
+  · cases hsetup
+  · have hco : c.obs = c0.obs := by cases hsetup; rfl
+    have hcs : c.strats = c0.strats := by cases hsetup; rfl
+    have hca : c.adding = (c0.obs.filter (fun o => o.kind = .adding)).map
+        fun o => (o.name, initResults (levelsOf c0.strats o.strats)) := by cases hsetup; rfl
+    have hacc : getAssoc o.name c.adding = some (initResults (levelsOf c0.strats o.strats)) := by
+      rw [hca]
+      have hmem : o ∈ c0.obs.filter (fun o => o.kind = .adding) := List.mem_filter.mpr ⟨ho, by simp [hk]⟩
+      have hsub : ((c0.obs.filter (fun o => o.kind = .adding)).map (·.name)).Nodup :=
+        List.Nodup.sublist (List.Sublist.map _ List.filter_sublist) hnd
+      generalize c0.obs.filter (fun o => o.kind = .adding) = l at hmem hsub
+      induction l with
+      | nil => cases hmem
+      | cons x xs ih =>
+        rw [List.map_cons, List.nodup_cons] at hsub
+        rcases List.mem_cons.mp hmem with rfl | hm
+        · simp [getAssoc]
+        · have hne : ¬ x.name = o.name := fun e => hsub.1 (e ▸ List.mem_map_of_mem hm)
+          simp only [List.map_cons, getAssoc, List.find?_cons, hne, decide_false]
+          exact ih hm hsub.2
+    have := (runCaught_adding c events (by rw [hco]; exact hnd) o (by rw [hco]; exact ho) hk _ hacc).2.2
+    rw [hco, hcs] at this
+    rw [this]
+    congr 1
+    exact result_is_sum_of_increments _ _
+
+/-- An event whose gathering raised before observation `o` was reached changes nothing for `o`, whatever happens
+before and after: the history with the failed event and the history without it report the same for `o`.  In
+particular the step that is run again after the failure contributes once, not twice and not zero times. -/
+theorem failed_event_changes_nothing (c : Ctx) (pre post : List EventC) (ev : EventC)
+    (hnd : (c.obs.map (·.name)).Nodup) (o : Obs) (ho : o ∈ c.obs) (hk : o.kind = .adding) (acc : Table)
+    (hacc : getAssoc o.name c.adding = some acc)
+    (hnot : eventForC c.strats c.obs o ev = (false, [])) :
+    getAssoc o.name (runCaught c (pre ++ ev :: post)).adding = getAssoc o.name (runCaught c (pre ++ post)).adding := by
+  rw [(runCaught_adding c _ hnd o ho hk acc hacc).2.2, (runCaught_adding c _ hnd o ho hk acc hacc).2.2]
+  simp only [List.map_append, List.map_cons, List.foldl_append, List.foldl_cons, hnot,
+    to_observe_false_no_increment]
+
+/-- a history without failing callables in which `runSim` goes through is that very run -/
+theorem runCaught_eq_runSim (c c' : Ctx) (events : List (String × Int × List RawRow × List ObsInput))
+    (hnf : ∀ e ∈ events, ∀ i ∈ e.2.2.2, i.fault = .none) (h : runSim c events = .ok c') :
+    runCaught c (events.map fun e => (e.1, e.2.1, e.2.2.1, e.2.2.2, ({} : EventFault))) = c' := by
+  induction events generalizing c with
+  | nil => simp only [runSim] at h; cases h; rfl
+  | cons ev es ih =>
+    obtain ⟨ph, time, rows, inputs⟩ := ev
+    simp only [runSim] at h
+    cases hg : gatherEvent c ph time rows inputs with
+    | error e => rw [hg] at h; simp [bind, Except.bind] at h
+    | ok c1 =>
+      rw [hg] at h
+      simp only [bind, Except.bind] at h
+      have h1 := gatherCaught_no_fault c ph time rows inputs (hnf _ List.mem_cons_self)
+      rw [hg] at h1
+      have := ih c1 (fun e he => hnf e (List.mem_cons_of_mem _ he)) h
+      simp only [runCaught, List.map_cons, List.foldl_cons, h1]
+      simpa [runCaught] using this
+
+/-- `register_observation` keeps observation names unique (a duplicate name is refused), whatever the `pop_filter` -/
+theorem registerObservation_names_nodup_filter (c c' : Ctx) (name phase : String) (kind : Kind) (add exc : List String)
+    (cb : Bool) (flt : String) (hnd : (c.obs.map (·.name)).Nodup)
+    (h : registerObservation c name phase kind add exc cb flt = .ok c') :
     (c'.obs.map (·.name)).Nodup := by
   unfold registerObservation at h
   split at h
@@ -862,6 +1153,12 @@ theorem registerObservation_names_nodup (c c' : Ctx) (name phase : String) (kind
     rw [List.any_eq_true]
     obtain ⟨o, ho, rfl⟩ := List.mem_map.mp ha
     exact ⟨o, ho, by simp⟩
+
+/-- … in particular with the default filter of the interface (the statement as it was before `pop_filter` was modelled) -/
+theorem registerObservation_names_nodup (c c' : Ctx) (name phase : String) (kind : Kind) (add exc : List String)
+    (cb : Bool) (hnd : (c.obs.map (·.name)).Nodup) (h : registerObservation c name phase kind add exc cb = .ok c') :
+    (c'.obs.map (·.name)).Nodup :=
+  registerObservation_names_nodup_filter c c' name phase kind add exc cb defaultFilter hnd h
 
 /-! ### which stratifications an observation uses (`_get_stratifications`) -/
 
@@ -969,5 +1266,31 @@ example : binLabel [0, 12, 24, 40] ["lo", "mid", "hi"] 12 = "mid" ∧ binLabel [
     binLabel [0, 12, 24, 40] ["lo", "mid", "hi"] 0 = "lo" := by decide
 
 example : registerObservation {} "o" "time_step" .adding [] [] false = .error .missingCallable := rfl
+
+/-! failing gatherings: three observations in two groups (`first` and `second` share filter and stratifications) -/
+def exObs : List Obs :=
+  [⟨"first", "cm", .adding, [], "F0"⟩, ⟨"filt", "cm", .adding, [], "F1"⟩, ⟨"second", "cm", .adding, [], "F0"⟩]
+def exCtx : Ctx :=
+  { obs := exObs, adding := [("first", [([], 0)]), ("filt", [([], 0)]), ("second", [([], 0)])] }
+def exInputs (f : Fault) : List ObsInput :=
+  [⟨"first", true, [true], [1], [], .none⟩, ⟨"filt", true, [true], [1], [], .none⟩, ⟨"second", true, [true], [1], [], f⟩]
+def exSeen (c : Ctx) : List (Option Table) := ["first", "second", "filt"].map fun n => getAssoc n c.adding
+
+-- groups in order of first registration, registration order inside a group
+example : (traversal exObs).map (·.name) = ["first", "second", "filt"] := by decide
+-- the aggregator of `second` raises: `first` (reached before) keeps the event's increment, `second` and `filt` see nothing
+example : (gatherCaught exCtx "cm" 1 [⟨true, []⟩] (exInputs .gather) {}).2 = some .raised ∧
+    exSeen (gatherCaught exCtx "cm" 1 [⟨true, []⟩] (exInputs .gather) {}).1 =
+      [some [([], 1)], some [([], 0)], some [([], 0)]] := by decide
+-- a mapper raises: nothing is recorded; a required pipeline raises even when nobody is in the event
+example : exSeen (gatherCaught exCtx "cm" 1 [⟨true, []⟩] (exInputs .none) { mapper := true }).1 =
+    [some [([], 0)], some [([], 0)], some [([], 0)]] := by decide
+example : (gatherCaught exCtx "cm" 1 [] (exInputs .none) { prepare := true }).2 = some .raised ∧
+    (gatherCaught exCtx "cm" 1 [] (exInputs .none) { mapper := true }).2 = none := by decide
+-- the step is run again and succeeds: `first` has now seen two emissions, the others one
+example : exSeen (runCaught exCtx [("cm", 1, [⟨true, []⟩], exInputs .gather, {}), ("cm", 1, [⟨true, []⟩], exInputs .none, {})]) =
+    [some [([], 2)], some [([], 1)], some [([], 1)]] := by decide
+example : eventForC [] exObs ⟨"second", "cm", .adding, [], "F0"⟩ ("cm", 1, [⟨true, []⟩], exInputs .gather, {}) = (false, []) := by
+  decide
 
 end Viv.Props.C16
